@@ -4,6 +4,7 @@ CONSTANTS
   NRefs = 3
   InitName = "two"
   FieldOpsName = "two"
+  ShapeSet = {"plain"}
   MaxOps = 4
   Export = TRUE
 INVARIANT AliasesAgree
